@@ -7,6 +7,8 @@ observation.  Whether that id actually suppresses anything is decided by known_f
 """
 from __future__ import annotations
 
+import re
+
 MATCHERS = {}
 
 
@@ -234,6 +236,9 @@ def c03_matchers(v, text="", features=None, ode=None, ref=None, code=None, **kw)
         return "C03-huge-int-literal"
     if kind == "raises" and any(t in exc for t in HUGE_INT_TEXTS) and (has_huge_int_literal(text) or has_huge_int_literal(code or "") or (ode is not None and huge_integer_atom(ode, ref, list(ref.assigns)))):
         return "C03-huge-int-literal"
+    if kind == "raises" and ("name 'inf'" in exc or "name 'nan'" in exc) and code and re.search(r"(?<![\w.])(inf|nan)(?![\w.(])", code):
+        # a bare inf/nan token in generated code can only come from printing a folded Float beyond float64's range
+        return "C03-folded-constant-out-of-float-range"
     if kind in ("value", "raises") and ode is not None and ref is not None:
         if (kind == "value" or "name 'inf'" in exc or "name 'nan'" in exc) and folded_constant_out_of_range(ode, ref, names):
             return "C03-folded-constant-out-of-float-range"
@@ -272,4 +277,16 @@ def c06_matchers(v, text="", ode=None, ref=None, code=None, **kw):
     exc = d.get("exc", "") or ""
     if v.get("kind") == "generation_raises" and ("_print_Derivative" in exc or "_print_Subs" in exc or "Derivative" in exc or "Subs" in exc) and ref is not None and own_state_under_floor_mod(ref):
         return "C06-derivative-of-floor-mod-unprintable"
+    return None
+
+
+@matcher("C02")
+def c02_matchers(v, text="", ode=None, ref=None, code=None, **kw):
+    d = v.get("detail", {})
+    if v.get("kind") == "value" and ref is not None:
+        root = d.get("name")
+        if d.get("fn") in ("rhs", "explicit_euler", "generalized_rush_larsen") and root in ref.derivs:
+            root = ref.derivs[root]
+        if root in ref.assigns and inverse_trig_of_constant(ref, root):
+            return "C02-inverse-trig-of-constant-rewritten-with-cancellation"
     return None
